@@ -395,8 +395,14 @@ func (g *Gen) modOp(st *State) Ev {
 			e.Total = g.in(-1, 1, 2, 3)
 		}
 		if g.chance(0.4) { // a module that acts on its context from inside its callbacks
-			e.RResp = g.pick([]string{"", "pause", "kill", "kill"})
-			e.RState = g.pick([]string{"", "", "kill", "pause"})
+			e.RResp = g.pick([]string{"", "pause", "kill", "kill", "start", "start", "cap1"})
+			e.RState = g.pick([]string{"", "", "kill", "pause", "cap1"})
+			if g.chance(0.04) { // finding D14
+				e.RState = "start"
+			}
+			if g.chance(0.4) { // ... or on another context: an earlier one, or the one created next
+				e.RTgt = 1 + g.R.Intn(len(st.Ctx)+2)
+			}
 		}
 		return e
 	}
